@@ -204,6 +204,9 @@ def compare_row(res, row, ref, label, fs, rt=1e-9):
         res.check(np.isclose(row["repolarisation_slope"], exp, rtol=rt), "features:repolarisation_slope", f"{label}: repolarisation slope {row['repolarisation_slope']} vs {exp}")
     exp = (row["peak_val"] - row["tip_val"]) / ((row["peak_time_idx"] - row["tip_time_idx"]) / fs)
     res.check(np.isclose(row["depolarisation_slope"], exp, rtol=rt), "features:depolarisation_slope", f"{label}: depolarisation slope {row['depolarisation_slope']} vs {exp}")
+    if int(row["recovery_time_idx"]) != int(row["trough_time_idx"]) and "recovery_slope" in row:
+        exp = (row["recovery_val"] - row["trough_val"]) / ((row["recovery_time_idx"] - row["trough_time_idx"]) / fs)
+        res.check(np.isclose(row["recovery_slope"], exp, rtol=rt), "features:recovery_slope", f"{label}: recovery slope {row['recovery_slope']} vs {exp} (fs={fs})")
     res.check(np.isclose(row["peak_to_trough_duration"], (row["trough_time_idx"] - row["peak_time_idx"]) / fs, rtol=1e-12, atol=0), "features:peak_to_trough_duration", f"{label}")
     res.check(np.isclose(row["half_peak_duration"], (row["half_peak_post_time_idx"] - row["half_peak_pre_time_idx"]) / fs, rtol=1e-12, atol=0), "features:half_peak_duration", f"{label}")
 
@@ -245,6 +248,9 @@ def run_case(case):
             df = W.compute_spike_features(arr.copy(), fs=fs, recovery_duration_ms=ms)
         except Exception as e:
             res.exception(key_exc, e, f"{label0} (troughs at {[r['trough_time_idx'] for r in refs]}, k={k})")
+            continue
+        if not hasattr(df, "iloc"):
+            res.violation("features:return-type", f"{label0}: compute_spike_features(...) returned a {type(df).__name__}, not the table of features")
             continue
         res.check(len(df) == N, "features:rows", f"{label0}: {len(df)} rows for {N} waveforms")
         for i in range(N):
